@@ -78,7 +78,20 @@ class Ctx:
         self.memo = {}
 
     def name(self, l):
-        return self.fn.local_name(l)
+        """unique name of a local: its source name, disambiguated by the local's index when another
+        local of the body carries the same source name (shadowing: `let key = if .. { &h } else { key }`)"""
+        fn = self.fn
+        nm = fn.local_name(l)
+        amb = getattr(fn, "_amb_names", None)
+        if amb is None:
+            cnt = {}
+            for l2, ns in fn.varnames.items():
+                for n_ in ns[:1]:
+                    cnt[n_] = cnt.get(n_, 0) + 1
+            amb = fn._amb_names = {n_ for n_, c in cnt.items() if c > 1}
+        if nm in amb and not (1 <= l <= fn.argc):
+            return "%s#%d" % (nm, l)
+        return nm
 
     # ---- length of the slice a local (reference) points to ---------------------------------------
     def length_of_local(self, l, depth=0):
@@ -144,6 +157,9 @@ class Ctx:
                 t = self.tuple_len(src["l"], proj[0]["f"], depth + 1)
                 if t is not None:
                     return t
+                cap = self.captured(src["l"], proj[0]["f"])
+                if cap is not None and depth < 12:
+                    return self.len_of_operand(cap, depth + 1)
                 # `.0` of a fixed-length container: the container's length
                 cl = container_len_of_ty(fn.locals[src["l"]])
                 if cl is not None and proj[0]["n"] == "0":
@@ -210,7 +226,21 @@ class Ctx:
             return None
         return translate(summ[1], gs[0], x.a, self)
 
+    def captured(self, l, field):
+        """operand captured as field `field` of the closure literal that local l stands for (the
+        receiver of a closure body folded into this view), or None"""
+        base = strip_reborrow(self.fn, l)[-1]
+        ds = def_sites(self.fn, base)
+        if len(ds) == 1 and ds[0][1] == "assign":
+            rv = ds[0][2]["rv"]
+            if rv["k"] == "agg" and rv.get("agg") in ("closure", "tuple") and field < len(rv["ops"]):
+                o = rv["ops"][field]
+                if o.get("k") in ("copy", "move"):
+                    return o
+        return None
+
     def tuple_len(self, l, field, depth):
+        l = strip_reborrow(self.fn, l)[-1]
         ds = def_sites(self.fn, l)
         if len(ds) == 1 and ds[0][1] == "call" and ds[0][2].path in ("core::slice::<impl [T]>::split_at", "core::slice::<impl [T]>::split_at_mut"):
             c = ds[0][2]
@@ -221,9 +251,46 @@ class Ctx:
             return k if field == 0 else lin_add(base, k, -1)
         return None
 
+    def resolve_operand(self, o, depth=0):
+        """follow value moves: `(x as Some).0` / `(x as Ok).0` where x was built as Some(y) / Ok(y) in this
+        body reads y; field i of a tuple / closure literal reads its i-th operand; plain moves (also of
+        projected places) are followed.  Returns an equivalent operand closer to where the value was
+        produced (remaining projections are kept)."""
+        fn = self.fn
+        while depth < 16 and o.get("k") in ("copy", "move"):
+            depth += 1
+            proj = [pe for pe in o["p"] if pe != "deref"]
+            base = strip_reborrow(fn, o["l"])[-1]
+            all_ds = def_sites(fn, base)
+            # the base itself is a move of a (projected) place: splice the projections
+            if len(all_ds) == 1 and all_ds[0][1] == "assign" and all_ds[0][2]["rv"]["k"] == "use" and \
+                    all_ds[0][2]["rv"]["x"].get("k") in ("copy", "move") and all_ds[0][2]["rv"]["x"]["p"]:
+                q = all_ds[0][2]["rv"]["x"]
+                o = {"k": "copy", "l": q["l"], "p": list(q["p"]) + list(proj)}
+                continue
+            if not proj:
+                return {"k": "copy", "l": base, "p": []} if base != o["l"] else o
+            ds = [d for d in all_ds if d[1] == "assign" and d[2]["rv"]["k"] == "agg"]
+            nxt, used = None, 0
+            if len(proj) >= 2 and isinstance(proj[0], dict) and "variant" in proj[0] and isinstance(proj[1], dict) and "f" in proj[1]:
+                for d in ds:
+                    rv = d[2]["rv"]
+                    if rv.get("variant") == proj[0]["variant"] and proj[1]["f"] < len(rv["ops"]):
+                        nxt, used = rv["ops"][proj[1]["f"]], 2
+            elif isinstance(proj[0], dict) and "f" in proj[0] and len(all_ds) == 1:
+                for d in ds:
+                    rv = d[2]["rv"]
+                    if rv.get("agg") in ("tuple", "closure") and proj[0]["f"] < len(rv["ops"]):
+                        nxt, used = rv["ops"][proj[0]["f"]], 1
+            if nxt is None or nxt.get("k") not in ("copy", "move"):
+                return {"k": o["k"], "l": base, "p": proj} if base != o["l"] else o
+            o = {"k": "copy", "l": nxt["l"], "p": list(nxt["p"]) + list(proj[used:])}
+        return o
+
     def len_of_operand(self, o, depth=0):
         if o.get("k") not in ("copy", "move"):
             return None
+        o = self.resolve_operand(o)
         proj = [pe for pe in o["p"] if pe != "deref"]
         if not proj:
             return self.length_of_local(o["l"], depth)
@@ -231,6 +298,9 @@ class Ctx:
             t = self.tuple_len(o["l"], proj[0]["f"], depth)
             if t is not None:
                 return t
+            cap = self.captured(o["l"], proj[0]["f"])
+            if cap is not None and depth < 12:
+                return self.len_of_operand(cap, depth + 1)
             cl = container_len_of_ty(self.fn.locals[o["l"]])
             if cl is not None and proj[0]["n"] == "0":
                 return cl
@@ -296,6 +366,13 @@ class Ctx:
             pl = self._callee_payload(e)
             if pl is not None:
                 return pl
+            # payload of a Some(..)/Ok(..) value built in this body (read only where that variant matched)
+            if e.a.k == "local" and isinstance(e.b, str) and "." in e.b and depth < 20:
+                var_, idx_ = e.b.rsplit(".", 1)
+                if idx_.isdigit():
+                    for d in def_sites(fn, e.a.a):
+                        if d[1] == "assign" and d[2]["rv"]["k"] == "agg" and d[2]["rv"].get("variant") == var_ and int(idx_) < len(d[2]["rv"]["ops"]):
+                            return self.lin(expr_of_operand(fn, d[2]["rv"]["ops"][int(idx_)]), depth + 1)
             ck = checked_arith(e.a)
             if ck is not None and e.b == "Some.0":
                 l, r = self.lin(ck[1], depth + 1), self.lin(ck[2], depth + 1)
@@ -511,6 +588,19 @@ def ok_summary(g, view_info, stack=()):
         return _summ_memo[g.key][1]
     if g.key in stack or len(stack) > 4 or g.locals[0].get("path") != "std::result::Result":
         return None
+    if g.prog is not None and not getattr(g, "inlined", None):
+        from .inline import inline
+        g0 = g
+        g = inline(g.prog, g, pick=lambda call, t: False)     # closures / combinators folded in
+        if g is not g0:
+            r = _ok_summary_body(g, view_info, stack)
+            _summ_memo[g0.key] = (g0, r)
+            return r
+    return _ok_summary_body(g, view_info, stack)
+
+
+def _ok_summary_body(g, view_info, stack):
+    from .expr import result_kind_of_ret
     ctx = Ctx(g, view_info)
     names = {ctx.name(p): p for p in range(1, g.argc + 1)}
     econs = edge_constraints(g, ctx, stack + (g.key,))
@@ -519,10 +609,21 @@ def ok_summary(g, view_info, stack=()):
     for b, kind, e in result_kind_of_ret(g):
         if kind == "err" or b not in g.reachable(0):
             continue
-        cur = {}
-        for lin, rel in facts_at(g, b, econs):
-            if _param_based(lin, names):
-                cur[(tuple(sorted((repr(k), v) for k, v in lin.items())), rel)] = (lin, rel)
+        # an exit whose value is computed (`cond.then(..).ok_or_else(e)`): it is Ok only under the
+        # definitions that make it Ok, so the facts of those definitions' blocks hold as well
+        combos = [[]]
+        if kind == "expr":
+            from .expr import ok_capable_combos
+            combos = ok_capable_combos(g, e)
+        cur = None
+        for blocks_ in combos:
+            cc = {}
+            for bb_ in [b] + list(blocks_):
+                for lin, rel in facts_at(g, bb_, econs):
+                    if _param_based(lin, names):
+                        cc[(tuple(sorted((repr(k), v) for k, v in lin.items())), rel)] = (lin, rel)
+            cur = cc if cur is None else {k: v for k, v in cc.items() if k in cur}
+        cur = cur or {}
         res = cur if res is None else {k: v for k, v in cur.items() if k in res}
         pl = None
         if kind == "ok":
@@ -560,6 +661,31 @@ def translate(lin, g, call, ctx):
     return out
 
 
+def _bool_param_fact(lin, rel, g, call, ctx):
+    """a summary fact `b >= 1` / `0 >= b` about a boolean parameter b, at a call site whose argument
+    is a comparison: the comparison (or its negation) itself"""
+    vs = lin_vars(lin)
+    if rel != ">=" or len(vs) != 1 or not (isinstance(vs[0], tuple) and vs[0][0] == "local"):
+        return None
+    gctx = Ctx(g, ctx.view_info)
+    ps = [p for p in range(1, g.argc + 1) if gctx.name(p) == vs[0][1] and g.locals[p].get("t") == "bool"]
+    if not ps or ps[0] > len(call.args):
+        return None
+    coef, const = lin[vs[0]], lin.get(1, 0)
+    truth = True if (coef == 1 and const == -1) else False if (coef == -1 and const == 0) else None
+    if truth is None:
+        return None
+    e = expr_of_operand(ctx.fn, call.args[ps[0] - 1])
+    neg_ = False
+    while e is not None and e.k == "unop" and e.a == "Not":
+        e = e.b
+        neg_ = not neg_
+    if e is None or e.k != "binop" or e.a not in NEG:
+        return None
+    op = e.a if truth != neg_ else NEG[e.a]
+    return cmp_to_constraints(op, ctx.lin(e.b), ctx.lin(e.c))
+
+
 def edge_constraints(fn, ctx, stack=()):
     """{(switch_bb, target_bb): [constraints]} from comparisons in switch conditions; the Ok edge of a
     call to a crate-local Result-returning helper carries the helper's Ok-postcondition."""
@@ -578,6 +704,10 @@ def edge_constraints(fn, ctx, stack=()):
                 continue
             tr = []
             for lin, rel in summ[0]:
+                bc = _bool_param_fact(lin, rel, gs[0], c, ctx)
+                if bc is not None:
+                    tr += bc
+                    continue
                 t = translate(lin, gs[0], c, ctx)
                 if t is not None:
                     tr.append((t, rel))
@@ -610,6 +740,12 @@ def edge_constraints(fn, ctx, stack=()):
             continue
         ft, tt = arms[0], t["otherwise"]
         if ft == tt:
+            continue
+        if e.k == "local" and e.b is fn and fn.locals[e.a].get("t") == "bool" and 1 <= e.a <= fn.argc:
+            # a boolean parameter used as a guard (`fn ensure(ok: bool, ..)`): 0/1-valued
+            v_ = lin_var(("local", ctx.name(e.a)))
+            out.setdefault((b, tt), []).append(ge(v_, lin_const(1)))
+            out.setdefault((b, ft), []).append(ge(lin_const(0), v_))
             continue
         neg_ = False
         if e.k == "unop" and e.a == "Not":
